@@ -1,11 +1,22 @@
 (* Model/Occ.v — optimistic concurrency control of the read-modify-write commands (C14).
 
    A revision-tagged store, commands that are a Read (GET: definition + the tag of the current revision)
-   followed by a conditional Write (PATCH of [edit def_read] carrying a tag), and arbitrary interleavings.
+   followed by a conditional Write (PATCH of [edit def_read] carrying a tag), and arbitrary interleavings,
+   including scripted faults of the backend at a write:
+
+     FLost    the backend processes the update as usual (commits it iff the tag rule accepts it) and the reply
+              never reaches the command (5xx / connection dropped).  The client does NOT send the update again
+              (cmd/esc/cli/client/retry.go: only GET is retried - a source fact, see Model/OccSrc.v); the variant
+              that does re-send is modelled too ([replays = true]) and refutes the property.
+     FReject  the backend answers "the definition has errors" (400 with diagnostics) and commits nothing.  The
+              interactive `env edit` then shows the diagnostics and, on ENTER, goes back to the editor ON THE
+              REJECTED TEXT and saves again WITH THE TAG IT READ AT THE START (round k+1); at end of input it
+              aborts.  `env set` / `env rm` / `env edit --file` print the diagnostics and end.
 
    Mirrors: cmd/esc/cli/env_set.go, env_rm.go, env_edit.go (GetEnvironment ... UpdateEnvironmentWithProject),
-   cmd/esc/cli/client/client.go (GetEnvironment / UpdateEnvironmentWithRevision: `if tag != "" { header.Set(etagHeader, tag) }`)
-   and the service contract: an update succeeds iff it carries no tag or the tag of the current revision.
+   cmd/esc/cli/client/client.go (GetEnvironment / UpdateEnvironmentWithRevision: `if tag != "" { header.Set(etagHeader, tag) }`),
+   cmd/esc/cli/client/retry.go and the service contract: an update succeeds iff it carries no tag or the tag of
+   the current revision.
 
    Definitions only (total, computable).  The second half instantiates the definitions with a simple tree and the
    tree-level meaning of `env set <path> <value>`, `env rm <path>` and of the editor scripts used by the
@@ -21,24 +32,37 @@ Section Occ.
   (* which tag a command puts on its update: the one it read, or none (the dangerous variant) *)
   Inductive policy := SendRead | SendEmpty.
 
-  (* RMW: GET then PATCH (edit def_read);  Blind: a single unconditional PATCH (`env edit --file`, other writers) *)
-  Inductive command := RMW (edit : D -> eres) (pol : policy) | Blind (d : D).
+  (* what the backend is scripted to do with the update served at a schedule slot *)
+  Inductive fault := FNone | FLost | FReject.
+
+  (* RMW: GET then PATCH ([edit k d] = the text the command saves in its round [k], i.e. after [k] saves rejected
+          with diagnostics, when [d] is the definition it read);
+          [enters] = how many times it goes back to editing after a rejected save (ENTER presses available; 0 for
+          env set / env rm);  [replays] = the client sends an update again when its reply was lost.
+     Blind: a single unconditional PATCH (`env edit --file`, other writers) *)
+  Inductive command :=
+  | RMW (edit : nat -> D -> eres) (pol : policy) (enters : nat) (replays : bool)
+  | Blind (d : D).
 
   Record store := mkStore { s_def : D; s_rev : N }.
 
-  Inductive outcome := OOk | OConflict | ONoWrite | OErr | OPanic.
+  (* ORejected: the last save was refused with diagnostics (nothing written);  OLost: the reply to the update was
+     lost (the command cannot know whether it was applied) *)
+  Inductive outcome := OOk | OConflict | ONoWrite | OErr | OPanic | ORejected | OLost.
 
-  Inductive phase := PIdle | PRead (d : D) (r : N) | PDone (o : outcome).
+  (* PRead d r k: read definition [d] at revision [r], [k] saves rejected so far;
+     PSent t body k: (replaying clients only) an update was sent, its reply lost, it will be sent again *)
+  Inductive phase := PIdle | PRead (d : D) (r : N) (k : nat) | PSent (t : option N) (body : D) (k : nat) | PDone (o : outcome).
 
-  (* what the backend sees *)
+  (* what the backend sees; [ok] = the update was committed *)
   Inductive event :=
   | EvGet (i : nat) (got : store)
-  | EvPatch (i : nat) (t : option N) (ok : bool) (before : store) (body : D) (after : store).
+  | EvPatch (i : nat) (t : option N) (ok : bool) (f : fault) (before : store) (body : D) (after : store).
 
   Record state := mkState {
     st_store : store;
     st_ph : list phase;          (* one per command *)
-    st_log : list nat;           (* commands whose update was applied, in write order *)
+    st_log : list (nat * nat);   (* (command, round) of the updates that were committed, in commit order *)
     st_trace : list event        (* requests in the order the backend served them *)
   }.
 
@@ -59,87 +83,116 @@ Section Occ.
   Definition finish (st : state) (i : nat) (o : outcome) : state :=
     mkState (st_store st) (set_nth i (PDone o) (st_ph st)) (st_log st) (st_trace st).
 
-  Definition write (st : state) (i : nat) (t : option N) (body : D) : state :=
+  (* the backend serves the update (tag [t], text [body]) of command [i] (in its round [k]) under fault [f];
+     [next ok] is the phase the command goes to when the update was / was not committed *)
+  Definition write (st : state) (i k : nat) (t : option N) (body : D) (f : fault) (next : bool -> phase) : state :=
     let s := st_store st in
-    if accept t (s_rev s) then
+    if (match f with FReject => false | _ => accept t (s_rev s) end) then
       let s' := mkStore body (s_rev s + 1) in
-      mkState s' (set_nth i (PDone OOk) (st_ph st)) (st_log st ++ [i])
-              (st_trace st ++ [EvPatch i t true s body s'])
+      mkState s' (set_nth i (next true) (st_ph st)) (st_log st ++ [(i, k)])
+              (st_trace st ++ [EvPatch i t true f s body s'])
     else
-      mkState s (set_nth i (PDone OConflict) (st_ph st)) (st_log st)
-              (st_trace st ++ [EvPatch i t false s body s]).
+      mkState s (set_nth i (next false) (st_ph st)) (st_log st)
+              (st_trace st ++ [EvPatch i t false f s body s]).
 
-  (* command [i] takes its next step *)
-  Definition step (cmds : list command) (i : nat) (st : state) : state :=
+  (* what the command does with the reply *)
+  Definition after_reply (f : fault) (replays : bool) (again : phase) (resend : phase) (ok : bool) : phase :=
+    match f with
+    | FNone => PDone (if ok then OOk else OConflict)
+    | FLost => if replays then resend else PDone OLost
+    | FReject => again
+    end.
+
+  (* command [i] takes its next step; [f] applies if that step is an update *)
+  Definition step (cmds : list command) (x : nat * fault) (st : state) : state :=
+    let (i, f) := x in
     match nth_error cmds i, nth_error (st_ph st) i with
-    | Some (RMW edit pol), Some PIdle =>
+    | Some (RMW edit pol enters replays), Some PIdle =>
         let s := st_store st in
-        mkState s (set_nth i (PRead (s_def s) (s_rev s)) (st_ph st)) (st_log st) (st_trace st ++ [EvGet i s])
-    | Some (RMW edit pol), Some (PRead d r) =>
-        match edit d with
-        | EUpd d' => write st i (sent_tag pol r) d'
+        mkState s (set_nth i (PRead (s_def s) (s_rev s) 0) (st_ph st)) (st_log st) (st_trace st ++ [EvGet i s])
+    | Some (RMW edit pol enters replays), Some (PRead d r k) =>
+        match edit k d with
+        | EUpd d' =>
+            let t := sent_tag pol r in
+            write st i k t d' f
+                  (after_reply f replays (if (k <? enters)%nat then PRead d r (S k) else PDone ORejected) (PSent t d' k))
         | ENoWrite => finish st i ONoWrite
         | EErr => finish st i OErr
         | EPanic => finish st i OPanic
         end
-    | Some (Blind d), Some PIdle => write st i None d
+    | Some (RMW edit pol enters replays), Some (PSent t body k) =>
+        write st i k t body f (after_reply f replays (PDone ORejected) (PSent t body k))
+    | Some (Blind d), Some PIdle =>
+        write st i 0 None d f (after_reply f false (PDone ORejected) (PDone OLost))
     | _, _ => st
     end.
 
   Definition init_state (cmds : list command) (init : store) : state :=
     mkState init (map (fun _ => PIdle) cmds) [] [].
 
-  (* a schedule is a list of command indices: the k-th occurrence of [i] is the k-th step of command [i], so every
-     list is a schedule that respects the per-command order, and every interleaving is such a list *)
-  Definition run (cmds : list command) (sched : list nat) (st : state) : state :=
-    fold_left (fun st i => step cmds i st) sched st.
+  (* a schedule is a list of (command index, fault): the k-th occurrence of [i] is the k-th step of command [i]
+     (a step of a command that has ended does nothing), so every list is a schedule that respects the per-command
+     order, and every interleaving with every placement of faults is such a list *)
+  Definition run (cmds : list command) (sched : list (nat * fault)) (st : state) : state :=
+    fold_left (fun st x => step cmds x st) sched st.
+
+  Definition no_faults (sched : list nat) : list (nat * fault) := map (fun i => (i, FNone)) sched.
 
   (* the edits of the commands in [log], applied one after the other, each to the then-current definition *)
-  Definition apply_cmd (cmds : list command) (d : D) (i : nat) : D :=
-    match nth_error cmds i with
-    | Some (RMW edit _) => match edit d with EUpd d' => d' | _ => d end
+  Definition apply_cmd (cmds : list command) (d : D) (x : nat * nat) : D :=
+    match nth_error cmds (fst x) with
+    | Some (RMW edit _ _ _) => match edit (snd x) d with EUpd d' => d' | _ => d end
     | Some (Blind d') => d'
     | None => d
     end.
 
-  Definition replay (cmds : list command) (log : list nat) (d0 : D) : D := fold_left (apply_cmd cmds) log d0.
+  Definition replay (cmds : list command) (log : list (nat * nat)) (d0 : D) : D := fold_left (apply_cmd cmds) log d0.
 
-  (* the guarantee about one update as the backend saw it: rejected and nothing changed, or applied to the
-     definition that was current at the time of the write *)
+  (* the guarantee about one update as the backend saw it: not committed and nothing changed, or committed and it is
+     the command's edit (of some round) of the definition that was current at the time of the write *)
   Definition event_ok (cmds : list command) (e : event) : Prop :=
     match e with
     | EvGet _ _ => True
-    | EvPatch i t ok before body after =>
+    | EvPatch i t ok f before body after =>
         match nth_error cmds i with
-        | Some (RMW edit _) =>
+        | Some (RMW edit _ _ _) =>
             (ok = false /\ after = before)
-            \/ (ok = true /\ edit (s_def before) = EUpd body /\ after = mkStore body (s_rev before + 1))
-        | Some (Blind d) => ok = true /\ body = d /\ after = mkStore d (s_rev before + 1)
+            \/ (ok = true /\ f <> FReject /\ (exists k, edit k (s_def before) = EUpd body)
+                /\ after = mkStore body (s_rev before + 1))
+        | Some (Blind d) =>
+            (ok = false /\ f = FReject /\ after = before)
+            \/ (ok = true /\ f <> FReject /\ body = d /\ after = mkStore d (s_rev before + 1))
         | None => False
         end
     end.
 
+  (* sends the tag it read and never sends an update twice *)
   Definition tagged (c : command) : Prop :=
-    match c with RMW _ SendEmpty => False | _ => True end.
+    match c with RMW _ SendRead _ false => True | RMW _ _ _ _ => False | Blind _ => True end.
+
+  Definition committed (st : state) : list nat := map fst (st_log st).
 
   (* the full statement of the property, relative to which commands are allowed *)
   Definition occ_statement (allowed : command -> Prop) : Prop :=
     forall cmds, Forall allowed cmds ->
-    forall (init : store) (sched : list nat),
+    forall (init : store) (sched : list (nat * fault)),
       let fin := run cmds sched (init_state cmds init) in
       Forall (event_ok cmds) (st_trace fin)
       /\ s_def (st_store fin) = replay cmds (st_log fin) (s_def init)
-      /\ NoDup (st_log fin)
-      /\ (forall i, In i (st_log fin) <-> nth_error (st_ph fin) i = Some (PDone OOk)).
+      /\ NoDup (committed fin)
+      /\ (forall i, nth_error (st_ph fin) i = Some (PDone OOk) -> In i (committed fin))
+      /\ (forall i, In i (committed fin) ->
+                    nth_error (st_ph fin) i = Some (PDone OOk) \/ nth_error (st_ph fin) i = Some (PDone OLost)).
 End Occ.
 
 Arguments EUpd {D}. Arguments ENoWrite {D}. Arguments EErr {D}. Arguments EPanic {D}.
 Arguments RMW {D}. Arguments Blind {D}.
 Arguments mkStore {D}. Arguments s_def {D}. Arguments s_rev {D}.
-Arguments PIdle {D}. Arguments PRead {D}. Arguments PDone {D}.
+Arguments PIdle {D}. Arguments PRead {D}. Arguments PSent {D}. Arguments PDone {D}.
 Arguments EvGet {D}. Arguments EvPatch {D}.
 Arguments mkState {D}. Arguments st_store {D}. Arguments st_ph {D}. Arguments st_log {D}. Arguments st_trace {D}.
-Arguments finish {D}. Arguments write {D}. Arguments step {D}. Arguments init_state {D}. Arguments run {D}.
+Arguments finish {D}. Arguments write {D}. Arguments after_reply {D}. Arguments step {D}. Arguments init_state {D}.
+Arguments run {D}. Arguments committed {D}.
 Arguments apply_cmd {D}. Arguments replay {D}. Arguments event_ok {D}. Arguments tagged {D}.
 Arguments occ_statement D : clear implicits.
 
@@ -241,21 +294,34 @@ Definition op_edit (k v : string) (doc : tree) : eres tree :=
 (* interactive `esc env edit` where the person empties the file: "Aborting edit due to empty definition." *)
 Definition op_abort (doc : tree) : eres tree := ENoWrite.
 
+(* [sec]: `--show-secrets` (the definition is read from the /decrypt rendering; same protocol);
+   [enters]: how many ENTER presses the person has for "Press ENTER to continue editing or ^D to exit" *)
 Inductive op :=
 | OpSet (p : list string) (v : tree)
 | OpRm (p : list string)
-| OpEdit (k v : string)
+| OpEdit (k v : string) (sec : bool) (enters : nat)
 | OpAbort
 | OpFile (d : tree).
 
-Definition edit_of (o : op) : tree -> eres tree :=
+(* the editor script run [n]+1 times, each time on the text the previous run left (env_edit.go: `yaml = newYAML`) *)
+Fixpoint rounds (e : tree -> eres tree) (n : nat) (d : tree) : eres tree :=
+  match n with
+  | O => e d
+  | S n' => match e d with EUpd d' => rounds e n' d' | r => r end
+  end.
+
+(* what the command saves in round [n] when it read [doc] *)
+Definition edit_of (o : op) (n : nat) : tree -> eres tree :=
   match o with
   | OpSet p v => op_set p v
   | OpRm p => op_rm p
-  | OpEdit k v => op_edit k v
+  | OpEdit k v _ _ => rounds (op_edit k v) n
   | OpAbort => op_abort
   | OpFile d => fun _ => EUpd d
   end.
+
+Definition enters_of (o : op) : nat := match o with OpEdit _ _ _ n => n | _ => 0%nat end.
+Definition shows_secrets (o : op) : bool := match o with OpEdit _ _ s _ => s | _ => false end.
 
 (* the tag policy of a command according to the Go source (Src/SrcOcc.v): [sites] are the call sites of the client's
    Update* methods in the command, (inside the `--file` branch?, what is passed as tag: 0 = the tag returned by
@@ -266,11 +332,13 @@ Definition policy_of_sites (client_ok : bool) (sites : list (bool * N)) : policy
   if client_ok && negb (match inter with [] => true | _ => false end) && forallb (fun s => snd s =? 0) inter
   then SendRead else SendEmpty.
 
-(* the commands of the correspondence check; [ps pr pe] are the tag policies of set / rm / interactive edit *)
-Definition command_of (ps pr pe : policy) (o : op) : command tree :=
+(* the commands of the correspondence check; [ps pr pe] are the tag policies of set / rm / interactive edit,
+   [rp] says whether the client sends a tagged update again after a lost reply *)
+Definition command_of (ps pr pe : policy) (rp : bool) (o : op) : command tree :=
   match o with
-  | OpSet _ _ => RMW (edit_of o) ps
-  | OpRm _ => RMW (edit_of o) pr
-  | OpEdit _ _ | OpAbort => RMW (edit_of o) pe
+  | OpSet _ _ => RMW (edit_of o) ps 0 rp
+  | OpRm _ => RMW (edit_of o) pr 0 rp
+  | OpEdit _ _ _ n => RMW (edit_of o) pe n rp
+  | OpAbort => RMW (edit_of o) pe 0 rp
   | OpFile d => Blind d
   end.
